@@ -1,0 +1,22 @@
+//go:build verif
+
+package notification
+
+import "context"
+
+// VerifDispatchAvailable runs one pass of the durable delivery loop (exactly
+// what dispatchLoop runs after every trigger/tick) on the caller's goroutine,
+// so a verification harness can step the dispatcher deterministically.
+func (m *StorageMiddleware) VerifDispatchAvailable(ctx context.Context) {
+	m.dispatchAvailable(ctx)
+}
+
+// VerifClaimOwner returns the claim owner identity of this middleware instance.
+func (m *StorageMiddleware) VerifClaimOwner() string {
+	return m.claimOwner
+}
+
+// VerifDispatcherConfig returns the effective (defaulted) dispatcher configuration.
+func (m *StorageMiddleware) VerifDispatcherConfig() DispatcherConfig {
+	return m.dispatcher
+}
